@@ -23,6 +23,8 @@ COMMANDS = [
     ["restore", "@KEPT"],
     ["gc"], ["gc", "-n"], ["gc", "-v"], ["gc", "-n", "-v"],
     ["clean", "-f"],
+    # without --force: the answer comes from standard input (y / n / end of input)
+    ["clean", "@STDIN:y\n"], ["clean", "@STDIN:n\n"], ["clean", "@STDIN:"], ["clean", "@STDIN:Y \n"],
 ]
 
 
@@ -111,7 +113,11 @@ def eval_case(case):
             shutil.rmtree(archdir, ignore_errors=True)
             os.makedirs(archdir)
             arch = os.path.join(archdir, "explicit.tar.gz")
-            argv = [{"@ARCH": arch, "@ARCHDIR": archdir, "@KEPT": kept}.get(x, x) for x in cmd]
+            stdin_text = None
+            for x in cmd:
+                if x.startswith("@STDIN:"):
+                    stdin_text = x[len("@STDIN:"):]
+            argv = [{"@ARCH": arch, "@ARCHDIR": archdir, "@KEPT": kept}.get(x, x) for x in cmd if not x.startswith("@STDIN:")]
             cwd_abs = os.path.join(pr.root, cwd)
             if cwd == "@outside-link-to-a":
                 # a project sub-directory entered through a symbolic link that lives outside the project
@@ -122,7 +128,7 @@ def eval_case(case):
                 bump("c17_cwd_not_present_in_this_state")  # e.g. a task output directory after `clean`
                 continue
             pr.events(new_only=True)
-            r = cli.run_cli(argv, cwd_abs, pr.scratch, timeout=120, clock=[T0])
+            r = cli.run_cli(argv, cwd_abs, pr.scratch, timeout=120, clock=[T0], stdin_text=stdin_text)
             evs = pr.events(new_only=True)
             snap = statecheck.full_snapshot(pr.root) if os.path.isdir(pr.root) else {}
             snap = {k: v for k, v in snap.items() if "version_index.sqlite" not in k and not (k.startswith("cond-out/cond-archive+")) and not (k == ".git" or k.startswith(".git/") or "/.git/" in k or k.endswith("/.git"))}
